@@ -76,3 +76,12 @@ Fixpoint fresh_reads (done todo : list c20_cache_step) : bool :=
   end.
 Definition c20_fresh_ok (c : c20_cache_case) : bool := fresh_reads [] (snd c).
 Definition c20_capacity_ok (c : c20_cache_case) : bool := forallb (fun st => let '(_, _, cch, _) := st in Nat.leb (length cch) (fst c)) (snd c).
+
+(* model independent: membership is what was last written, whether or not an invalidation is still pending *)
+Fixpoint member_reads (done todo : list c20_cache_step) : bool :=
+  match todo with
+  | [] => true
+  | ((CHas k, Some v, _, _) as st) :: r => Nat.eqb v (if Nat.eqb (last_write k (rev done) 0) 0 then 0 else 1) && member_reads (st :: done) r
+  | st :: r => member_reads (st :: done) r
+  end.
+Definition c20_member_ok (c : c20_cache_case) : bool := member_reads [] (snd c).
